@@ -1,10 +1,12 @@
+import Bptk.Core.C08
 /-
 C09 — the channels through which results of one SD scenario are obtained, as functions of one abstract
 per-step simulator and the time grid: batch run (`run_scenarios`, formats df / dict / json), stepwise
 session (`begin_session`, `run_step(settings?)`, `session_results(index_by_time, flat)`), REST
 (`run`, `run-step`, `run-steps k`, `stream-steps`, `session-results`, `flat-session-results`).
 
-Executable model, import-free.  Times are grid indices (`t_k = start + k·dt`); labels are an abstract
+Executable model; imports only `Bptk.Core.C08` (wave 2: the memo-level session below runs C08's `memoize`
+model `evalK` step by step).  Times are grid indices (`t_k = start + k·dt`); labels are an abstract
 type: `label k` is the k-th element of `timerange` (the batch index), `rawLabel k` is what k bare float
 additions `step + dt` produce.  Settings `S`, values `V` and the simulator are abstract.
 -/
@@ -18,6 +20,9 @@ structure Cfg where
   /-- a step memoises *all* equations of the scenario at its time, so later settings cannot reach back
       (pinned tree: only the requested equations and what they happened to need) -/
   stepFinalisesAll : Bool
+  /-- when not all: at least the stocks and flows of the scenario are evaluated at each step (a seeded
+      defect: "the state equations carry the history"); irrelevant when `stepFinalisesAll` -/
+  stepFinalisesState : Bool := true
 deriving DecidableEq, Repr
 
 def Cfg.good (c : Cfg) : Bool := c.sessionDtFromScenario && c.stepClockNormalised && c.stepFinalisesAll
@@ -166,5 +171,76 @@ def resultsFlat {S L V : Type} (eqs : List Nat) (st : Sess S L V) : List (Nat ×
 /-- settings in force at grid index `i` when the single steps carried the settings `ss` -/
 def accAt {S V : Type} (sim : Sim S V) (base : S) (ss : List (Option S)) (i : Nat) : S :=
   (ss.take (i + 1)).foldl (mergeOpt sim) base
+
+/-! ### Wave 2 — the session at memo level
+
+`SdRunner.run_scenario_step` on the live `sd_simulation`: (1) `change_equation` for every constant of the
+step's settings — the lambda is rebound, **the memo is not reset**; (2) the requested equations are
+evaluated at the step's time through `Model.memoize` (C08's `evalK`); (3) finalisation: a set of
+equations is evaluated at the step's time so that their values are memoised — **every equation of the
+scenario** on the repaired tree (`FinSet.all`), only stocks and flows under a seeded defect
+(`stateOnly`), none on the pinned tree (`requestedOnly`). -/
+
+inductive FinSet where
+  | all | stateOnly | requestedOnly
+deriving DecidableEq, Repr
+
+def finSet (c : Cfg) : FinSet :=
+  if c.stepFinalisesAll then .all else if c.stepFinalisesState then .stateOnly else .requestedOnly
+
+def finList (fs : FinSet) (nEq : Nat) (kind : Nat → C08.Kind) : List Nat :=
+  match fs with
+  | .all => List.range nEq
+  | .stateOnly => (List.range nEq).filter fun n => kind n != .other
+  | .requestedOnly => []
+
+/-- evaluate equations at grid index `k` one after the other, threading the memo; `none` when an
+evaluation does not return (fuel = recursion limit) -/
+def evalList {α : Type} (ops : C08.Ops α) (body : Nat → C08.Expr α) (fuel k : Nat) :
+    List Nat → C08.Memo α → Option (C08.Memo α × List α)
+  | [], m => some (m, [])
+  | e :: es, m =>
+      match C08.evalK ops body fuel m (e, k) with
+      | (m1, some v) =>
+          (match evalList ops body fuel k es m1 with
+           | some (m2, vs) => some (m2, v :: vs)
+           | none => none)
+      | (_, none) => none
+
+/-- step settings: new values for constants (`change_equation(name, value)`) -/
+abbrev CSet (α : Type) := List (Nat × α)
+
+def applySet {α : Type} (body : Nat → C08.Expr α) (s : CSet α) : Nat → C08.Expr α :=
+  s.foldl (fun b p => C08.updFn b p.1 (.lit p.2)) body
+
+structure MSess (α : Type) where
+  body : Nat → C08.Expr α        -- model.equations: the lambdas currently installed
+  memo : C08.Memo α
+  k : Nat                        -- session clock (grid index)
+  log : List (List α)
+
+def mbegin {α : Type} (body : Nat → C08.Expr α) : MSess α := { body := body, memo := [], k := 0, log := [] }
+
+def mstep {α : Type} (fs : FinSet) (nEq : Nat) (kind : Nat → C08.Kind) (ops : C08.Ops α) (fuel : Nat)
+    (eqs : List Nat) (st : MSess α) (s : CSet α) : Option (MSess α) :=
+  let body' := applySet st.body s
+  match evalList ops body' fuel st.k eqs st.memo with
+  | none => none
+  | some (m1, row) =>
+      match evalList ops body' fuel st.k (finList fs nEq kind) m1 with
+      | none => none
+      | some (m2, _) => some { body := body', memo := m2, k := st.k + 1, log := st.log ++ [row] }
+
+def msteps {α : Type} (fs : FinSet) (nEq : Nat) (kind : Nat → C08.Kind) (ops : C08.Ops α) (fuel : Nat)
+    (eqs : List Nat) : List (CSet α) → MSess α → Option (MSess α)
+  | [], st => some st
+  | s :: ss, st =>
+      match mstep fs nEq kind ops fuel eqs st s with
+      | some st1 => msteps fs nEq kind ops fuel eqs ss st1
+      | none => none
+
+/-- the definitions in force at grid index `i` when the single steps carried the settings `ss` -/
+def defsAt {α : Type} (base : Nat → C08.Expr α) (ss : List (CSet α)) (i : Nat) : Nat → C08.Expr α :=
+  (ss.take (i + 1)).foldl applySet base
 
 end Bptk.C09
